@@ -187,6 +187,8 @@ GRnd(k, j, lo, hi) == <<lo + Pick(k, j, hi - lo + 1), lo + Pick(k, j + 1, hi - l
 GNonZero(g) == IF g = GZero THEN <<1, 0>> ELSE g
 
 (* ========================================================================= families == *)
+(* Every action has the form  c' = Rec(arguments)  with Rec a state-level operator: TLC caches the
+   LET definitions of state-level expressions but re-evaluates those of an action at every use.       *)
 Init == c = [kind |-> "init"]
 Fresh == c.kind = "init"
 
@@ -200,11 +202,10 @@ ZcCase == /\ "zc" \in Kinds /\ Fresh
                c' = [kind |-> "zc", n |-> N, u |-> u, e |-> ZcSeq(N, u)]
 
 (* ---- get_extended_ZF(calcBaseZC(N, u), size), N <= size <= 3N + 2 ------------------- *)
+ExtRec(N, size, w) == LET u == IF w = 1 THEN 1 ELSE 1 + Pick(N, 1, N - 1)
+                      IN [kind |-> "ext", n |-> N, u |-> u, size |-> size, e |-> ExtSeq(ZcSeq(N, u), size)]
 ExtCase == /\ "ext" \in Kinds /\ Fresh
-           /\ \E N \in ExtNs : \E size \in N..(3 * N + 2) : \E w \in 1..2 :
-                LET u == IF w = 1 THEN 1 ELSE 1 + Pick(N, 1, N - 1)
-                IN c' = [kind |-> "ext", n |-> N, u |-> u, size |-> size,
-                         e |-> ExtSeq(ZcSeq(N, u), size)]
+           /\ \E N \in ExtNs : \E size \in N..(3 * N + 2) : \E w \in 1..2 : c' = ExtRec(N, size, w)
 
 (* ---- RootSequence(u, size): table lookup, base sequence, cyclic extension ------------ *)
 RootU(size, nzc) == 1 + Pick(size, 2, nzc - 1)
@@ -212,43 +213,46 @@ ProbeIdx(size, nzc) == {i \in {0, 1, 2, nzc - 2, nzc - 1, nzc, nzc + 1, size - 2
 RECURSIVE SortedSeq(_)
 SortedSeq(S) == IF S = {} THEN <<>> ELSE LET m == CHOOSE x \in S : \A y \in S : x <= y
                                          IN <<m>> \o SortedSeq(S \ {m})
+RootRec(size) ==
+  LET nzc  == TablePick(size)
+      u    == RootU(size, nzc)
+      idx  == IF size \in RootFull THEN [i \in 1..size |-> i - 1] ELSE SortedSeq(ProbeIdx(size, nzc))
+  IN [kind |-> "root", size |-> size, u |-> u, nzc |-> nzc, idx |-> idx,
+      e |-> [i \in 1..Len(idx) |-> IF ExtSrc(nzc, idx[i]) < 0 THEN -1
+                                    ELSE ZcExp(nzc, u, ExtSrc(nzc, idx[i]))]]
 RootCase == /\ "root" \in Kinds /\ Fresh
-            /\ \E size \in RootSizes :
-                 LET nzc  == TablePick(size)
-                     u    == RootU(size, nzc)
-                     idx  == IF size \in RootFull THEN [i \in 1..size |-> i - 1]
-                             ELSE SortedSeq(ProbeIdx(size, nzc))
-                 IN c' = [kind |-> "root", size |-> size, u |-> u, nzc |-> nzc, idx |-> idx,
-                          e |-> [i \in 1..Len(idx) |-> IF ExtSrc(nzc, idx[i]) < 0 THEN -1
-                                                        ELSE ZcExp(nzc, u, ExtSrc(nzc, idx[i]))]]
+            /\ \E size \in RootSizes : c' = RootRec(size)
 
 (* ---- SrsUeSequence / DmrsUeSequence: root sequence times the phase ramp, cover code,
         optional normalisation (amplitude 1/sqrt(size), reported as norm2 = size) --------- *)
 Covers == << <<>>, <<1, 1>>, <<1, -1>>, <<-1, 1>> >>
+UeRec(fam, size, nrm, cv, ncs) ==
+  LET D   == IF fam = "srs" THEN 8 ELSE 12
+      nzc == TablePick(size)
+      u   == 1 + Pick(size + 7 * ncs, 3, nzc - 1)
+  IN [kind |-> "ue", fam |-> fam, size |-> size, u |-> u, nzc |-> nzc, ncs |-> ncs,
+      den |-> D, rden |-> RampDen(D), cover |-> Covers[cv], normalize |-> nrm,
+      norm2 |-> IF nrm THEN size ELSE 1,
+      e |-> ExtSeq(ZcSeq(nzc, u), size), ramp |-> Ramp(ncs, D, size)]
 UeCase == /\ "ue" \in Kinds /\ Fresh
           /\ \E fam \in {"srs", "dmrs"} : \E size \in UeSizes : \E nrm \in BOOLEAN :
-             \E cv \in 1..(IF fam = "srs" THEN 1 ELSE 4) :
-               LET D   == IF fam = "srs" THEN 8 ELSE 12
-               IN \E ncs \in 0..(D - 1) :
-                  LET nzc == TablePick(size)
-                      u   == 1 + Pick(size + 7 * ncs, 3, nzc - 1)
-                  IN c' = [kind |-> "ue", fam |-> fam, size |-> size, u |-> u, nzc |-> nzc, ncs |-> ncs,
-                           den |-> D, rden |-> RampDen(D), cover |-> Covers[cv], normalize |-> nrm,
-                           norm2 |-> IF nrm THEN size ELSE 1,
-                           e |-> ExtSeq(ZcSeq(nzc, u), size), ramp |-> Ramp(ncs, D, size)]
+             \E cv \in 1..(IF fam = "srs" THEN 1 ELSE 4) : \E ncs \in 0..((IF fam = "srs" THEN 8 ELSE 12) - 1) :
+                c' = UeRec(fam, size, nrm, cv, ncs)
 
 (* ---- two users of one root on shifts a # b: the inner product is the sum of the ramp
         differences (the root cancels, |root| = 1) ------------------------------------------ *)
+ShiftRec(D, L, a, b) ==
+  LET ra == Ramp(a, D, L)
+      rb == Ramp(b, D, L)
+      df == TLCEval([i \in 1..L |-> (ra[i] - rb[i]) % RampDen(D)])
+      \* root used when the pair is built on the real classes (sizes 12 and 24: table row)
+      u  == IF L > 24 THEN 1 + Pick(L + 3 * a + 13 * b, 4, TablePick(L) - 1)
+            ELSE Pick(L + 3 * a + 13 * b, 4, 30)
+  IN [kind |-> "shift", den |-> D, size |-> L, a |-> a, b |-> b, u |-> u,
+      zero |-> ZeroSumD(RampDen(D), df)]
 ShiftCase == /\ "shift" \in Kinds /\ Fresh
              /\ \E D \in ShiftDs : \E L \in ShiftLs : \E a \in 0..(D - 1) : \E b \in 0..(D - 1) :
-                  /\ a < b
-                  /\ LET ra == Ramp(a, D, L)  rb == Ramp(b, D, L)
-                         df == TLCEval([i \in 1..L |-> (ra[i] - rb[i]) % RampDen(D)])
-                         \* root used when the pair is built on the real classes (sizes 12 and 24: table row)
-                         u  == IF L > 24 THEN 1 + Pick(L + 3 * a + 13 * b, 4, TablePick(L) - 1)
-                               ELSE Pick(L + 3 * a + 13 * b, 4, 30)
-                     IN c' = [kind |-> "shift", den |-> D, size |-> L, a |-> a, b |-> b, u |-> u,
-                              zero |-> ZeroSumD(RampDen(D), df)]
+                  a < b /\ c' = ShiftRec(D, L, a, b)
 
 (* ---- compute_ls_estimation(Y, S) = Y S^H (S S^H)^-1, with the exact inverse adj / det ---- *)
 LsDims(i) == [nr |-> 1 + Pick(3000 + i, 1, 3), nt |-> 1 + Pick(3000 + i, 2, 3),
@@ -258,21 +262,24 @@ LsS(i, r) == LET d == LsDims(i) IN
 LsH(i, r) == LET d == LsDims(i) IN
   TLCEval([a \in 1..d.nr |-> TLCEval([b \in 1..d.nt |-> GRnd(3300 + 7 * i + r, 10 + 2 * (a * 3 + b), -2, 2)])])
 Gram(S) == IF Dev.LsGramNotConjugated THEN MatMul(S, Transp(S)) ELSE MatMul(S, Herm(S))
+LsS2(i, form) == IF form = "3d-each" THEN LsS(i, 1) ELSE LsS(i, 0)   \* pilots of the second realisation
+\* full row rank of the pilots (else: not a case of the property)
+LsOk(i, form) == /\ Det(MatMul(LsS(i, 0), Herm(LsS(i, 0)))) # GZero
+                 /\ Det(MatMul(LsS2(i, form), Herm(LsS2(i, form)))) # GZero
+                 /\ Det(Gram(LsS(i, 0))) # GZero
+LsRec(i, form) ==
+  LET S  == LsS(i, 0)
+      G  == Gram(S)
+      H  == LsH(i, 0)
+      Y  == MatMul(H, S)
+      S2 == LsS2(i, form)
+      H2 == LsH(i, 1)
+  IN [kind |-> "ls", id |-> i, form |-> form, s |-> S, h |-> H, y |-> Y,
+      s2 |-> S2, h2 |-> H2, y2 |-> MatMul(H2, S2),
+      num |-> MatMul(MatMul(Y, Herm(S)), Adj(G)), den |-> Det(G)]
 LsCase == /\ "ls" \in Kinds /\ Fresh
           /\ \E i \in 1..NLs : \E form \in {"2d", "3d-shared", "3d-each"} :
-               LET S  == LsS(i, 0)
-                   G  == Gram(S)
-                   H  == LsH(i, 0)
-                   Y  == MatMul(H, S)
-                   \* second realisation of the 3-d forms: same pilots, or pilots of its own
-                   S2 == IF form = "3d-each" THEN LsS(i, 1) ELSE S
-                   H2 == LsH(i, 1)
-               IN /\ Det(MatMul(S, Herm(S))) # GZero                 \* full row rank (else no case)
-                  /\ Det(MatMul(S2, Herm(S2))) # GZero
-                  /\ Det(G) # GZero
-                  /\ c' = [kind |-> "ls", id |-> i, form |-> form, s |-> S, h |-> H, y |-> Y,
-                           s2 |-> S2, h2 |-> H2, y2 |-> MatMul(H2, S2),
-                           num |-> MatMul(MatMul(Y, Herm(S)), Adj(G)), den |-> Det(G)]
+               LsOk(i, form) /\ c' = LsRec(i, form)
 
 (* ---- CAZAC estimators in the tap domain ------------------------------------------------ *)
 DOf(f) == IF f = "srs" THEN 8 ELSE 12
@@ -343,10 +350,10 @@ EstTaps(sc) == [a \in 1..sc.nrx |->
        ps == SortedSeq(nz)
    IN [i \in 1..Len(ps) |-> <<ps[i], YTap(sc, a, ps[i])>>]]
 
+EstRec(f, L, nrx, v) == LET sc == Scenario(f, L, nrx, v) IN [kind |-> "est", sc |-> sc, est |-> EstTaps(sc)]
 EstCase == /\ "est" \in Kinds /\ Fresh
            /\ \E f \in EstFams : \E L \in EstLs : \E nrx \in EstNrx : \E v \in EstVars :
-                LET sc == Scenario(f, L, nrx, v)
-                IN L % DOf(f) = 0 /\ c' = [kind |-> "est", sc |-> sc, est |-> EstTaps(sc)]
+                L % DOf(f) = 0 /\ c' = EstRec(f, L, nrx, v)
 
 Next == PrimeCase \/ ZcCase \/ ExtCase \/ RootCase \/ UeCase \/ ShiftCase \/ LsCase \/ EstCase
 Spec == Init /\ [][Next]_vars
